@@ -19,6 +19,11 @@ class Metrics:
         self.registry = self.mt.registry()
         self.cache: Dict[Tuple[str, str], object] = {}
 
+    def names(self):
+        """Registry identifiers whose value is a module-level function (others are reported by REG-entry)."""
+        fns = self.mt.mi.functions
+        return [n for n in sorted(self.registry) if self.registry[n] in fns]
+
     def domain(self, name: str) -> str:
         return self.spec.AXIOMS[name][0] if name in self.spec.AXIOMS else "R"
 
@@ -36,7 +41,7 @@ class Metrics:
 
 def check_closed_forms(rep, M: Metrics, pre: str = "") -> int:
     n = 0
-    for name in sorted(M.registry):
+    for name in M.names():
         if name not in M.spec.REFERENCE:
             rep.fn(pre + "FORM-known", M.repo.need_method("OPF", "__init__"), f"identifier {name!r}", False,
                    "registry identifier without a reference closed form")
@@ -55,7 +60,7 @@ def check_closed_forms(rep, M: Metrics, pre: str = "") -> int:
 
 def check_symmetry(rep, M: Metrics, pre: str = "") -> int:
     n = 0
-    for name in sorted(M.registry):
+    for name in M.names():
         dom, ax = M.spec.AXIOMS.get(name, ("R", ""))
         if "s" not in ax:
             continue
@@ -70,7 +75,7 @@ def check_symmetry(rep, M: Metrics, pre: str = "") -> int:
 
 def check_zero_self(rep, M: Metrics, pre: str = "") -> int:
     n = 0
-    for name in sorted(M.registry):
+    for name in M.names():
         dom, ax = M.spec.AXIOMS.get(name, ("R", ""))
         if "z" not in ax:
             continue
@@ -94,7 +99,7 @@ def check_zero_self(rep, M: Metrics, pre: str = "") -> int:
 
 def check_definedness(rep, M: Metrics, pre: str = "") -> int:
     n = 0
-    for name in sorted(M.registry):
+    for name in M.names():
         tr, ops = M.translated(name)
         if ops.domain == "P" and not tr.decorated:
             # strictly positive arguments are what the shifting decorator provides; without it the
@@ -120,7 +125,7 @@ def check_definedness(rep, M: Metrics, pre: str = "") -> int:
 def check_decorator_domain(rep, M: Metrics, pre: str = "") -> int:
     """A metric with a divisor / log operand that is not provably non-zero on inputs >= 0 must be shifted."""
     n = 0
-    for name in sorted(M.registry):
+    for name in M.names():
         tr, ops = M.translated(name, "R+")
         need = []
         for ob in tr.obligations:
@@ -139,7 +144,7 @@ def check_decorator_domain(rep, M: Metrics, pre: str = "") -> int:
 def check_value_axioms(rep, M: Metrics, pre: str = "") -> int:
     """n / t: theorem table on the reference form, transferred by code == reference."""
     n = 0
-    for name in sorted(M.registry):
+    for name in M.names():
         dom, ax = M.spec.AXIOMS.get(name, ("R", ""))
         for a in ("n", "t"):
             if a not in ax:
@@ -252,3 +257,36 @@ def check_registry(rep, M: Metrics, pre: str = "") -> None:
             (sup[0].args[:1] == (("param", "distance"),)) or (("distance", ("param", "distance")) in sup[0].kwargs))
         rep.fn(pre + "REG-forward", fi, f"{cls}.__init__ forwards `distance` to its base class", ok,
                "the `distance` option does not reach OPF.__init__ unchanged")
+
+
+def check_shift_wrapper(rep, M: Metrics, pre: str = "") -> None:
+    """The zero-avoiding decorator must hand the metric (x + EPSILON, y + EPSILON) with an EPSILON whose
+    small powers neither underflow nor overflow on inversion - the premise of the sign analysis
+    ("decorated arguments are strictly positive, no overflow/underflow")."""
+    from .effects import Effects
+    from .ir import Walker
+
+    repo = M.repo
+    dec = repo.need_function("opfython.utils.decorator", "avoid_zero_division")
+    inner = [n for n in dec.node.body if isinstance(n, ast.FunctionDef)]
+    if len(inner) != 1:
+        raise AnalysisError("avoid_zero_division: expected one inner function")
+    from .core import FunctionInfo
+    fi = FunctionInfo(dec.module, None, f"{dec.name}.<locals>.{inner[0].name}", inner[0], [])
+    w = Walker(repo, fi, inline=lambda f: False)
+    calls = [e for e in w.events if e.kind == "call" and e.target == ("free", dec.params[0])]
+    ok = False
+    detail = "the wrapper must call the metric exactly once with (x + c.EPSILON, y + c.EPSILON)"
+    if len(calls) == 1 and len(calls[0].args) == 2 and len(fi.params) == 2:
+        want = tuple(("bin", "+", *sorted([("K", "EPSILON"), ("param", p)], key=repr)) for p in fi.params)
+        ok = calls[0].args == want and not calls[0].guards
+        rets = [e for e in w.events if e.kind == "return"]
+        ok = ok and len(rets) == 1 and rets[0].value == calls[0].value
+        if not ok:
+            detail = f"the metric receives ({', '.join(str(__import__('opfcheck.ir', fromlist=['show']).show(a)) for a in calls[0].args)})"
+    rep.fn(pre + "SHIFT-args", fi, "decorated metrics see (x + EPSILON, y + EPSILON)", ok, detail)
+    eps = repo.constants.get("EPSILON")
+    okv = isinstance(eps, float) and 1e-100 <= eps <= 1e-6
+    rep.fn(pre + "SHIFT-constant", fi, f"EPSILON = {eps!r}: EPSILON^3 and 1/EPSILON^3 are normal floats", okv,
+           "with a shift this small (large) products of shifted zeros underflow to 0 (swamp the data): ratio and log "
+           "metrics return inf/NaN on vectors containing zeros")
